@@ -25,6 +25,9 @@ def contracts():
     def c(target, **kw):
         kw.setdefault('serves', ('C15',))
         x = Contract(target, **kw)
+        # exact integer arithmetic at any magnitude: the bounded native
+        # cross-check includes values beyond float precision
+        x.native_bigints = True
         cs.append(x)
         return x
     ops = [('binary_plus', '+'), ('binary_minus', '-'),
